@@ -111,7 +111,39 @@ def check_lm(r, k, mask, t, S, case, pre):
         r.v(pre + 'latter-map-trimming-differs', 'mask', dict(case, lm=True), sorted(S), sorted(O.has_arcs(U.rows(a2))))
 
 
+def check_lm_history(r, k, mask):
+    """One latter-map object trimmed repeatedly (thresholds 4,3,2, then 3 again): every call must give
+    the graph of that threshold, and the caller's map must stay as it was."""
+    import dsw, copy
+    m = np.zeros(4 ** k, dtype=bool)
+    m[sorted(mask)] = True
+    st, acc, _ = brun(dsw.connect_valid_graph, observed_length=k, vertices=m)
+    if st != 'ok':
+        return
+    st, lmap, _ = brun(dsw.accessor_to_latter_map, acc)
+    if st != 'ok':
+        return
+    before = {int(a): [int(x) for x in b] for a, b in lmap.items()}
+    case = {'k': k, 'mask': sorted(mask)}
+    for i, t in enumerate((4, 3, 2, 3)):
+        S = O.gfp(mask, k, t)
+        st, a2, _ = brun(dsw.latter_map_to_accessor, lmap, k, threshold=t, lim=4000000)
+        r.trans += 1
+        r.evals += 1
+        if st != 'ok' or U.rows(a2) != O.from_mask(S, k):
+            r.v('C03|k=%s|latter-map-trimming-differs-on-reused-map|call-%d' % (k if k <= 2 else '>=3', i + 1), 'lmhist', case, sorted(S),
+                sorted(O.has_arcs(U.rows(a2))) if st == 'ok' else repr(a2))
+        now = {int(a): [int(x) for x in b] for a, b in lmap.items()}
+        if now != before:
+            r.v('C03|k=%s|latter-map-argument-modified-by-trimming' % (k if k <= 2 else '>=3'), 'lmhist', case)
+            lmap = copy.deepcopy(before)
+    r.ctr['lm_histories'] += 1
+
+
 def check_case(r, kind, case):
+    if kind == 'lmhist':
+        check_lm_history(r, case['k'], set(case['mask']))
+        return
     if kind == 'mask':
         check_mask(r, case['k'], set(case['mask']), case['t'], case.get('dtype', 'bool'), lm=bool(case.get('lm')))
     elif kind == 'mono':
@@ -136,6 +168,8 @@ def _w_g2(chunk):
             c = check_mask(r, 2, mask, t, 'bool', S, lm=True)
             check_mask(r, 2, mask, t, 'int', S)
             codes[(mcode, t)] = c
+            if t == 4 and mask and (len(mask) >= 9 or mcode % 5 == 0):
+                check_lm_history(r, 2, mask)
             r.states += 1
             if len(S) != len(mask):
                 r.nontriv += 1
@@ -185,6 +219,36 @@ def binary_masks(k, alphabets):
         verts = [O.idx(''.join(p)) for p in itertools.product(O.NUC[a] + O.NUC[b], repeat=k)]
         for m in range(1 << len(verts)):
             out.append((k, {verts[i] for i in range(len(verts)) if m >> i & 1}))
+    return out
+
+
+def tiny_closed_sets(k):
+    """Vertex sets whose threshold-1 coding graph is tiny compared with 4^k: X^k plus the rotations of
+    X^(k-1)Y (a loop with a detour), the 2-cycle (XY)* with a detour, each also with dead-end clutter."""
+    out = []
+    for x in range(4):
+        for y in range(4):
+            if x == y:
+                continue
+            X, Y = O.NUC[x], O.NUC[y]
+            w = X * (k - 1) + Y
+            S = {O.idx(X * k)} | {O.idx(w[i:] + w[:i]) for i in range(k)}
+            out.append(S)
+            out.append(S | {O.idx(Y * k), O.idx(Y * (k - 1) + X)} | {(v * 4 + 3) % 4 ** k for v in list(S)[:2]})
+            a = (X + Y) * k
+            cyc = {O.idx(a[:k]), O.idx(a[1:k + 1])}
+            # detour: ...XYX -> YXY Y? build the closed walk XY..XY + Y then back
+            det = a[:k - 1] + Y if a[k - 2] == X else a[:k - 1] + X
+            walk = det
+            Sd = set(cyc)
+            cur = det
+            for _ in range(2 * k + 2):
+                Sd.add(O.idx(cur))
+                nxt = cur[1:] + (X if cur[-1] == Y else Y)
+                cur = nxt
+                if O.idx(cur) in cyc:
+                    break
+            out.append(Sd)
     return out
 
 
@@ -269,6 +333,9 @@ def run(ctx):
         verts = {O.idx(''.join(p)) for p in itertools.product(O.NUC[a] + O.NUC[b], repeat=5)}
         fam.append((5, verts, (1, 2, 3)))
         fam.append((5, verts - {min(verts)}, (1, 2)))
+    for k in (4, 5, 6):
+        for S in tiny_closed_sets(k):
+            fam.append((k, S, (1, 2)))
     fm = filter_masks(3, 6 if ctx.quick else 8)
     fam += [(k, m, (1, 2, 3, 4)) for k, m in fm if m]
     fam.sort(key=lambda x: -len(x[1]) * (4 ** x[0]))
